@@ -10,6 +10,7 @@ package lockflow
 import (
 	"fmt"
 	"go/ast"
+	"go/printer"
 	"go/token"
 	"go/types"
 	"os"
@@ -1768,4 +1769,198 @@ func CoqStrs(ss []string) string {
 		parts = append(parts, CoqStr(s))
 	}
 	return "[" + strings.Join(parts, "; ") + "]"
+}
+
+// ---------------------------------------------------------------------------------------------
+// context arguments (C08: every wait on behalf of an API call listens on the CALLER's context)
+
+// CtxArg is one call, inside a function that has a context.Context parameter, of a function whose
+// first argument is a context: what is passed there.
+type CtxArg struct {
+	Func   string // enclosing function (literals: f$n)
+	Line   int
+	Callee string
+	Arg    string // source text of the argument
+	Kind   string // caller | mixed | stored | background | other
+}
+
+func isCtxType(t types.Type) bool {
+	n, ok := t.(*types.Named)
+	return ok && n.Obj().Pkg() != nil && n.Obj().Pkg().Path() == "context" && n.Obj().Name() == "Context"
+}
+
+// CtxArgs classifies the context argument of every call made by the functions that have a
+// context parameter.  "caller" = the parameter itself or a context derived from it
+// (context.With*(ctx, ...), any call that is handed a derived context and returns a context);
+// a local counts as derived at a use when every assignment to it that precedes the use in the
+// source is derived; "mixed" = some preceding assignment is derived (or it is the parameter) and
+// some is not (e.g. `reqCtx := ctx; if ... { reqCtx = d.ctx }`); "stored" = a field such as
+// u.ctx / d.ctx; "background"; "other".
+func CtxArgs(p *Prog) []CtxArg {
+	var out []CtxArg
+	for _, fn := range p.Funcs {
+		var ft *ast.FuncType
+		if fn.Decl != nil {
+			ft = fn.Decl.Type
+		} else if fn.Lit != nil {
+			ft = fn.Lit.Type
+		}
+		if ft == nil || ft.Params == nil || fn.Body == nil {
+			continue
+		}
+		info := fn.Pkg.TypesInfo
+		params := map[types.Object]bool{}
+		for _, f := range ft.Params.List {
+			if t := info.TypeOf(f.Type); t != nil && isCtxType(t) {
+				for _, nm := range f.Names {
+					if o := info.ObjectOf(nm); o != nil {
+						params[o] = true
+					}
+				}
+			}
+		}
+		if len(params) == 0 {
+			continue
+		}
+		own := func(n ast.Node) bool { // do not descend into literals that have their own context parameter
+			if fl, ok := n.(*ast.FuncLit); ok && fl.Type.Params != nil {
+				for _, f := range fl.Type.Params.List {
+					if t := info.TypeOf(f.Type); t != nil && isCtxType(t) {
+						return false
+					}
+				}
+			}
+			return true
+		}
+		type asg struct {
+			pos token.Pos
+			rhs ast.Expr
+		}
+		asgs := map[types.Object][]asg{}
+		ast.Inspect(fn.Body, func(n ast.Node) bool {
+			if !own(n) {
+				return false
+			}
+			as, ok := n.(*ast.AssignStmt)
+			if !ok {
+				return true
+			}
+			for i, l := range as.Lhs {
+				id, ok := l.(*ast.Ident)
+				if !ok || id.Name == "_" {
+					continue
+				}
+				o := info.ObjectOf(id)
+				if o == nil || o.Type() == nil || !isCtxType(o.Type()) {
+					continue
+				}
+				var rhs ast.Expr
+				if len(as.Rhs) == len(as.Lhs) {
+					rhs = as.Rhs[i]
+				} else if len(as.Rhs) == 1 && i == 0 {
+					rhs = as.Rhs[0]
+				}
+				asgs[o] = append(asgs[o], asg{as.Pos(), rhs})
+			}
+			return true
+		})
+		var exprKind func(e ast.Expr, at token.Pos) string
+		kindAt := func(o types.Object, at token.Pos) string {
+			ncaller, nother := 0, 0
+			if params[o] {
+				ncaller++
+			}
+			for _, a := range asgs[o] {
+				if a.pos >= at {
+					continue
+				}
+				if a.rhs != nil && exprKind(a.rhs, a.pos) == "caller" {
+					ncaller++
+				} else {
+					nother++
+				}
+			}
+			switch {
+			case ncaller > 0 && nother == 0:
+				return "caller"
+			case ncaller > 0:
+				return "mixed"
+			}
+			return "other"
+		}
+		exprKind = func(e ast.Expr, at token.Pos) string {
+			switch x := unparen(e).(type) {
+			case *ast.Ident:
+				if o := info.ObjectOf(x); o != nil {
+					return kindAt(o, at)
+				}
+			case *ast.SelectorExpr:
+				return "stored"
+			case *ast.CallExpr:
+				if isPkgFunc(info, x, "context", "Background") || isPkgFunc(info, x, "context", "TODO") {
+					return "background"
+				}
+				if t := info.TypeOf(x); t != nil {
+					isCtx := isCtxType(t)
+					if tup, ok := t.(*types.Tuple); ok {
+						for k := 0; k < tup.Len(); k++ {
+							isCtx = isCtx || isCtxType(tup.At(k).Type())
+						}
+					}
+					if !isCtx {
+						return "other"
+					}
+				}
+				res := "other"
+				for _, a := range x.Args {
+					if t := info.TypeOf(a); t != nil && isCtxType(t) {
+						switch exprKind(a, at) {
+						case "caller":
+							return "caller"
+						case "mixed":
+							res = "mixed"
+						}
+					}
+				}
+				return res
+			}
+			return "other"
+		}
+		src := func(e ast.Expr) string {
+			var sb strings.Builder
+			printer.Fprint(&sb, p.Fset, e)
+			return sb.String()
+		}
+		clean := func(full string) string {
+			full = strings.NewReplacer("(*", "", "(", "", ")", "").Replace(full)
+			return strings.TrimPrefix(full, "github.com/aptpod/iscp-go/")
+		}
+		ast.Inspect(fn.Body, func(n ast.Node) bool {
+			if !own(n) {
+				return false
+			}
+			c, ok := n.(*ast.CallExpr)
+			if !ok || len(c.Args) == 0 {
+				return true
+			}
+			t := info.TypeOf(c.Args[0])
+			if t == nil || !isCtxType(t) {
+				return true
+			}
+			callee := src(c.Fun)
+			if sel, ok := unparen(c.Fun).(*ast.SelectorExpr); ok {
+				if f, ok := info.Uses[sel.Sel].(*types.Func); ok {
+					callee = clean(f.FullName())
+				}
+			} else if id, ok := unparen(c.Fun).(*ast.Ident); ok {
+				if f, ok := info.Uses[id].(*types.Func); ok {
+					callee = clean(f.FullName())
+				}
+			}
+			out = append(out, CtxArg{Func: fn.Name, Line: p.Fset.Position(c.Pos()).Line, Callee: callee, Arg: src(c.Args[0]),
+				Kind: exprKind(c.Args[0], c.Pos())})
+			return true
+		})
+	}
+	return out
 }
